@@ -293,10 +293,21 @@ def rule_P3(ctx):
     ok = ds == ("iadd", f"{r}.data_streams") or ds in (f"{l}.data_streams + {r}.data_streams", f"list({l}.data_streams) + list({r}.data_streams)", f"[*{l}.data_streams, *{r}.data_streams]")
     ctx.ob("P3", fn, "combined streams = left's streams followed by right's streams", ok, "" if ok else f"data_streams = {ds}", inst="stream-order")
     ok = rec.get("__base__") == l and rec.get("__class__") == "Sample"
-    ctx.ob("P3", fn, "the result starts as a shallow copy of every field of the left sample (its stream list is a new list)", ok, f"{rec.get('__base__')}", inst="copy-left")
-    ok = rec.get("num_channels") in ("len(result.data_streams)",) and rec.get("channel_config") == "ChannelConfig.STEREO_SPLIT_STREAMS"
+    detc = f"{rec.get('__base__')}"
+    if not ok and rec.get("__explicit__") and rec.get("__class__") == "Sample":
+        # the same written field by field: every field of Sample that the merge does not set itself is taken from the left sample
+        from ..core.terms import DC_FIELDS as _dcf
+        own_set = {"data_streams", "channel_config", "num_channels", "_export_name"}
+        missing = [f_ for f_ in (_dcf.get("Sample") or ()) if f_ not in rec and f_ not in own_set]
+        wrong = [f_ for f_ in (_dcf.get("Sample") or ()) if f_ in rec and f_ not in own_set and rec[f_] not in (f"{l}.{f_}", f"copy.copy({l}.{f_})", f"copy({l}.{f_})", f"list({l}.{f_})")]
+        ok = bool(_dcf.get("Sample")) and not missing and not wrong
+        detc = "" if ok else (f"field(s) {missing} of the left sample are not carried over: the merged sample falls back to the class defaults" if missing else f"field(s) {wrong} do not come from the left sample")
+        if ok:
+            ok = rec.get("data_streams") in (f"{l}.data_streams + {r}.data_streams", f"list({l}.data_streams) + list({r}.data_streams)", f"[*{l}.data_streams, *{r}.data_streams]")
+    ctx.ob("P3", fn, "the result starts as a shallow copy of every field of the left sample (its stream list is a new list)", ok, detc, inst="copy-left")
+    ok = rec.get("num_channels") in ("len(result.data_streams)", f"len({l}.data_streams + {r}.data_streams)") and rec.get("channel_config") == "ChannelConfig.STEREO_SPLIT_STREAMS"
     ctx.ob("P3", fn, "channel count = number of combined streams", ok, "" if ok else f"num_channels={rec.get('num_channels')}, channel_config={rec.get('channel_config')}", inst="num-channels")
-    ok = "num_channels" in order and "data_streams" in order and order.index("num_channels") > order.index("data_streams")
+    ok = "num_channels" in order and "data_streams" in order and (order.index("num_channels") > order.index("data_streams") or bool(rec.get("__explicit__")))
     ctx.ob("P3", fn, "the channel count is taken after the right streams were added", ok, f"{order}", inst="count-after-add")
 
 
